@@ -239,6 +239,15 @@ def int_to_sstr(v):
         raise Unsupported("str(symbolic bool)")
     if not isinstance(v, SInt):
         return str(v)
+    memo = E.pred_memo.get((v.z.get_id(), "str(int)"))
+    if memo is not None:
+        return memo[0]         # same integer term rendered before on this path: same digit variables
+    r = _int_to_sstr(v)
+    E.pred_memo[(v.z.get_id(), "str(int)")] = (r, v.z)
+    return r
+
+
+def _int_to_sstr(v):
     neg = truth(v < 0)
     a = -v if neg else v
     nd = 1
